@@ -68,6 +68,12 @@ def real_from_ast(tree: Any) -> tuple[str, Any]:
 		return exc_enum(e), None
 
 
+def pretty_of(rules: Any) -> str:
+	"""Rules.pretty() under the call budget (a printer that no longer ends becomes an exception the callers report)"""
+	with gramlib.budget(gramlib.CALL_BUDGET_S):
+		return rules.pretty()
+
+
 def ast_tree_of(t: Any) -> Any:
 	from rogw.tranp.implements.syntax.tranp.ast import ASTToken, ASTTree
 	from rogw.tranp.implements.syntax.tranp.token import Token, TokenTypes
@@ -149,7 +155,7 @@ def stream_rules_ast(ctx: Ctx) -> Stream:
 		ops.append(f'pretty\t{sx}')
 		if k == 'ok':
 			try:
-				real.append('ok ' + hx(rules.pretty()))
+				real.append('ok ' + hx(pretty_of(rules)))
 			except Exception as e:  # noqa: BLE001
 				real.append(exc_enum(e))
 		else:
@@ -195,7 +201,7 @@ def stream_rules_text(ctx: Ctx) -> Stream:
 		if k != 'ok':
 			continue
 		try:
-			text = rules.pretty() + '\n'
+			text = pretty_of(rules) + '\n'
 		except Exception:  # noqa: BLE001 - rules-ast compares pretty() itself
 			continue
 		if rng.random() < 0.25:
@@ -209,7 +215,7 @@ def stream_rules_text(ctx: Ctx) -> Stream:
 		lit = gen_rules.literal_of_rule_module(os.path.join(REPO, path), func)
 		try:
 			rules = real_from_ast(lit)[1]
-			k2, payload2, _ = world.parse(rules.pretty() + '\n')
+			k2, payload2, _ = world.parse(pretty_of(rules) + '\n')
 			ok = k2 == 'ok' and gramlib.rules_show(real_from_ast(payload2)[1]) == gramlib.rules_show(rules)
 		except Exception:  # noqa: BLE001
 			ok = False
@@ -337,7 +343,7 @@ def search_round_trip(ctx: Ctx) -> SearchResult:
 			continue
 		text = ''
 		try:
-			text = rules.pretty() + '\n'
+			text = pretty_of(rules) + '\n'
 			k2, payload, _ = world.parse(text)
 			if k2 == 'ok':
 				k3, back = real_from_ast(payload)
@@ -405,7 +411,7 @@ def search_render_import(ctx: Ctx) -> SearchResult:
 					ast_tree = ast_tree_of(t)
 				else:
 					k, rules = real_from_ast(t)
-					printout = rules.pretty() + '\n'
+					printout = pretty_of(rules) + '\n'
 					if not all(ok_val(v) for v in [printout.replace('\n', '')]) or any(c in s2 for s2 in string_terminals(rules) for c in '\n\r'):
 						hist['printout:outside-domain'] += 1
 						continue
@@ -564,7 +570,10 @@ def search_fixed_points(ctx: Ctx) -> SearchResult:
 		k, rules = real_from_ast(gen.grammar(rng.randint(1, 4), rng.randint(0, 2), bare_groups=rng.random() < 0.2))
 		if k != 'ok':
 			continue
-		text = rules.pretty() + '\n'
+		try:
+			text = pretty_of(rules) + '\n'
+		except Exception:  # noqa: BLE001 - rules-ast compares pretty() itself
+			continue
 		if rng.random() < 0.3:
 			pos = rng.randrange(len(text))
 			text = text[:pos] + text[pos + 1:]
@@ -626,7 +635,7 @@ def search_history(ctx: Ctx) -> SearchResult:
 		if k != 'ok':
 			continue
 		try:
-			text = rules.pretty() + '\n'
+			text = pretty_of(rules) + '\n'
 		except Exception:  # noqa: BLE001 - rules-ast compares pretty() itself
 			continue
 		if rng.random() < 0.3:
@@ -736,7 +745,7 @@ def search_gram_check_file(ctx: Ctx) -> SearchResult:
 			continue
 		want = gramlib.tree_show(t)
 		try:
-			printed = rules.pretty() + '\n'
+			printed = pretty_of(rules) + '\n'
 		except Exception:  # noqa: BLE001 - rules-ast compares pretty() itself
 			continue
 		for variant in (('lf', 'crlf') if i % 2 == 0 else ('lf',)):
@@ -868,18 +877,22 @@ STATEMENTS = {
 def run(ctx: Ctx) -> int:
 	ok, msg = translate(ctx)
 	proof = common.prove(ctx, PROP, leanchecker=ctx.thorough)
+	streams, searches = [], []
 	with ctx.timed('correspondence'):
-		streams = [guarded('stream', 'rules-ast', stream_rules_ast, ctx), guarded('stream', 'rules-text', stream_rules_text, ctx)]
+		for name, fn in [('rules-ast', stream_rules_ast), ('rules-text', stream_rules_text)]:
+			with ctx.timed(f'stream:{name}'):
+				streams.append(guarded('stream', name, fn, ctx))
 	with ctx.timed('search'):
-		searches = [guarded('search', 'round-trip', search_round_trip, ctx), guarded('search', 'fixed-points', search_fixed_points, ctx), guarded('search', 'render-import', search_render_import, ctx),
-			guarded('search', 'history', search_history, ctx), guarded('search', 'gram-check-file', search_gram_check_file, ctx)]
+		for name, fn in [('round-trip', search_round_trip), ('fixed-points', search_fixed_points), ('render-import', search_render_import), ('history', search_history), ('gram-check-file', search_gram_check_file)]:
+			with ctx.timed(f'search:{name}'):
+				searches.append(guarded('search', name, fn, ctx))
 	return common.finish(ctx, proof, streams, searches, translate_ok=ok, translate_msg=msg,
 		statements=STATEMENTS,
 		partial={
 			'proved': 'AST-level round trip (both directions), both fixed points as kernel-evaluated computations on the real token lists, text-level law reduced to one hypothesis (text_rt_partial) and kernel-checked on the recorded witnesses, accept_same',
 			'correspondence_only': 'from_ast / Prettier / Pattern.make / render_rules / the engine under gram_rules() equal the model on random and shipped inputs; toAst equals the real parse of a printout',
 			'tests': 'TextRt.textRt py_rules() = true is evaluated by the compiled driver on every run (rules-text stream, case textrt-py_rules) — as a kernel proof it takes 8 min, so it is a test, not a theorem',
-			'search_only': 'text-level round trip in general (text_rt_statement: needs a lexer model and an inversion argument for the engine on the meta-grammar), module texts on disk, compiled vs original rules on sentences',
+			'search_only': 'text-level round trip in general (text_rt_statement: needs a lexer model and an inversion argument for the engine on the meta-grammar), module texts on disk, compiled vs original rules on sentences, the FILE path of gram_check (load_source / run_output on LF and CRLF files with raw control characters in terminals; how the file is opened is pinned by the translator), one grammar parser instance over a history of texts',
 		},
 		assumptions=[
 			'symbol names, terminals and texts are ASCII (Pattern.make\'s \\w is modelled for ASCII)',
@@ -930,7 +943,7 @@ def replay(ctx: Ctx, path: str) -> int:
 	if rec.get('kind') == 'failing-input' and 'tree' in inp:
 		world = GramWorld()
 		k, rules = real_from_ast(_tuplify(inp['tree']))
-		text = rules.pretty() + '\n'
+		text = pretty_of(rules) + '\n'
 		k2, payload, _ = world.parse(text)
 		back = real_from_ast(payload)[1] if k2 == 'ok' else None
 		same = back is not None and gramlib.rules_show(back) == gramlib.rules_show(rules)
